@@ -15,18 +15,25 @@ NULLPATH = {"parts": [], "concrete": True, "dt": "none", "mt": "none"}
 
 
 def blank(i):
-    return {"id": i, "op": "get", "entry": "", "rparts": [], "dt": "none", "mt": "none", "proj": NULLPATH,
+    return {"id": i, "op": "get", "entry": "", "rparts": [], "dt": "none", "mt": "none", "proj": NULLPATH, "mods_pure": True,
             "doc": V("none"), "outcome": "", "res": V("none"), "outcomep": "", "resp": V("none"),
             "writes": [], "unchanged": True}
 
 
-def apply_mods(p, dt, mt, order):
+def apply_mods(p, dt, mt, order, pure=None):
+    """apply the modifiers in the given order; pure (a one-element list) is set to False if applying a modifier
+    changed the path it was applied to (every modifier must return a copy)"""
     fd = {"none": None, "dtype": "dtype", "length": "length", "map_keys": "map_keys", "map_values": "map_values"}[dt]
     fm = {"none": None, "first": "first", "last": "last", "single": "single", "all": "all"}[mt]
     seq = [fd, fm] if order == "dm" else [fm, fd]
+    stages = [(p, enc_path(p))] if pure is not None else []
     for f in seq:
         if f:
             p = getattr(p, f)()
+            if pure is not None:
+                stages.append((p, enc_path(p)))
+    if pure is not None:
+        pure[0] = all(enc_path(o) == snap for o, snap in stages) and len({id(o) for o, _ in stages}) == len(stages)
     return p
 
 
@@ -38,10 +45,12 @@ def get_event(i, rparts, dt, mt, order, doc, entry):
     e.update(entry=entry, dt=dt, mt=mt)
     e["rparts"] = [enc_rpart(p) for p in rparts]
     e["doc"] = enc_val(doc)
+    pure = [True]
+
     def construct():
         ps = [gen.build_part(p) for p in rparts]
         pa = dp.DataPath(*ps, source_data=doc) if entry == "bound" else dp.DataPath(*ps)
-        return ps, apply_mods(pa, dt, mt, order)
+        return ps, apply_mods(pa, dt, mt, order, pure)
 
     out0, built = outcome_of(construct)
     if out0 in ("raised:TypeError", "raised:ValueError"):
@@ -51,6 +60,7 @@ def get_event(i, rparts, dt, mt, order, doc, entry):
         return e
     parts, path = built
     e["proj"] = enc_path(path)
+    e["mods_pure"] = bool(pure[0])
 
     def call(rp):
         if entry == "get_data_raw":
@@ -102,6 +112,26 @@ def random_cases(rng, n, modifiers):
         yield rparts, dt, mt, order, doc
 
 
+def retyped_twin(rparts):
+    """the same primitive path with every numeric primitive given in another type that is == to it (1 <-> 1.0 <-> True);
+    None when there is nothing to retype"""
+    out, changed = [], False
+    for p in rparts:
+        if isinstance(p, tuple) and p[0] == "prim" and isinstance(p[1], (bool, int, float)):
+            v = p[1]
+            if isinstance(v, bool):
+                w = int(v)
+            elif isinstance(v, int):
+                w = float(v)
+            else:
+                w = int(v) if v == int(v) else v
+            changed = changed or (type(w) is not type(v))
+            out.append(("prim", w))
+        else:
+            out.append(p)
+    return out if changed else None
+
+
 def small_universe():
     """every path of length <= 2 over a part pool x a document pool (quick exhaustive tier)"""
     A = ("prim", "a")
@@ -135,6 +165,8 @@ def run_path_check(rep, tier, seed, modifiers, label):
     events, recipes = [], {}
     rng = random.Random(seed + (4 if modifiers else 3))
 
+    _in_twin = [False]
+
     def add(rparts, dt, mt, order, doc, entries):
         for entry in entries:
             if entry == "Data_get_parts" and (dt != "none" or mt != "none"):
@@ -151,6 +183,15 @@ def run_path_check(rep, tier, seed, modifiers, label):
             events.append(e)
             recipes[e["id"]] = {"rparts": to_lit(rparts), "dt": dt, "mt": mt, "order": order, "doc": to_lit(doc),
                                 "entry": entry}
+            twin = retyped_twin(rparts) if not _in_twin[0] else None
+            if twin is not None and entry in ("Data_get_parts", "get_data_raw", "Data_get_path"):
+                # the ==-but-differently-typed path straight afterwards in the same process, and the first one again
+                _in_twin[0] = True
+                try:
+                    add(twin, dt, mt, order, doc, [entry])
+                    add(rparts, dt, mt, order, doc, [entry])
+                finally:
+                    _in_twin[0] = False
             nontriv = e["outcome"] != "ok" or (e["res"]["k"] == "list" and len(e["res"]["xs"]) > 0) or \
                 (e["res"]["k"] not in ("list", "none"))
             rep.note_case(repr((rparts, dt, mt, order, doc, entry)), nontrivial=nontriv)
